@@ -300,10 +300,11 @@ namespace link_layer {
     template < class BufferedRadio, class ReceiveCallbacks, std::size_t MTUSize >
     void ll_l2cap_sdu_buffer< BufferedRadio, ReceiveCallbacks, MTUSize >::free_ll_l2cap_received()
     {
-        if (receive_buffer_used_)
+        // the reassembly buffer is only handed out, once the SDU is complete. A link layer PDU (LL control PDU,
+        // not fragmented SDU) can be handed out, while a reassembly is still in progress.
+        if ( receive_buffer_used_ != 0 && receive_size_ == 0 )
         {
             receive_buffer_used_ = 0;
-            receive_size_ = 0;
         }
         else
         {
